@@ -4,5 +4,5 @@
 package trace
 
 //@ type Tracer
-//@   immutable errHandler next reqHeaders respHeaders log
-//@   sink writer
+//@   immutable errHandler next reqHeaders respHeaders log writerMu
+//@   sink writer guarded_by writerMu
